@@ -18,6 +18,7 @@ const v2Pkg = "network/transport/v2"
 
 func c07(r *Report) {
 	defer c07Seed5(r)
+	defer c07Seed6(r)
 	p := r.P
 	r.Explanation = "The convergence statement itself (finitely many rounds, all DAG pairs, all schedules with a fair suffix) is NOT decided: it quantifies over message schedules and set contents. Decided are its safety clauses and the structural necessary conditions for progress that are visible in the shape of the handlers: (a) safety — received lists/sets touch state only after the conversation check; the conversation check accepts only a known conversation whose request-specific membership/range/LC test passes; transactions enter only through State.Add (whose validation is C06) and a public transaction without payload is refused; nothing in the protocol deletes from the transaction shelves; payloads are written only when they hash to the transaction's payload hash; (b) progress — every envelope type is dispatched to the handler that consumes it; each reconciliation handler ends silently only in its in-sync / peer-is-behind branch (every other non-error exit sends a follow-up request); a list with missing prevs restarts reconciliation via State; IBLT decode failure falls back to a range query or a lower State page; responses echo the request's conversation id; requests are sent only after registering the conversation and with the registered message; an expired conversation never blocks a new one; the advertised XOR/clock is refreshed on every enqueue (also when the ref is dropped for a full queue); the range-query requester never asks more pages than the responder serves."
 	r.NotDecided = []string{"convergence in finitely many rounds under fair delivery (liveness over schedules)", "IBLT decode capacity / XOR algebra", "behaviour of the gossip timer and gRPC back-pressure"}
